@@ -108,6 +108,45 @@ def rs_cases(drv, res):
                                                   "what": "ECDSA signature is not fixed-width r||s of the chosen values"})
 
 
+def cli_cases(res, drv, tier):
+    """sign single-level through the real command line: the key identifier written in decimal and in hexadecimal"""
+    import tempfile, os
+    from concurrent.futures import ThreadPoolExecutor
+    desc, files, _ = suitcases.make_case(777, 3, depth=0)
+    b = bytes.fromhex(suitcases.run_impl_create(strip_blocks(desc), files)["ok"])
+    nums = common.CLI_NUMBERS if tier == "thorough" else common.CLI_NUMBERS[:9]
+    jobs = [(n, sp) for n in nums for sp in (common.spellings(n) if tier == "thorough" else common.spellings(n)[:2])]
+    with tempfile.TemporaryDirectory(prefix="verif_c04cli_") as d:
+        inp = os.path.join(d, "in.suit")
+        open(inp, "wb").write(b)
+
+        def one(job):
+            n, sp = job
+            k = jobs.index(job)
+            out = os.path.join(d, f"out{k}.suit")
+            common.make_stale(out)
+            rc, log = common.run_cli(["sign", "single-level", "--input-envelope", inp, "--output-envelope", out, "--key-name", "key_ed25519", "--key-id", sp,
+                                      "--alg", "eddsa", "--context", signing.keys_dir(), "--kms-script", str(common.REPO / "ncs" / "basic_kms.py"),
+                                      "--sign-script", str(common.REPO / "ncs" / "sign_script.py")], d)
+            return rc, log, (open(out, "rb").read() if common.was_written(out) else None)
+        with ThreadPoolExecutor(max_workers=12) as ex:
+            outs = list(ex.map(one, jobs))
+    for (n, sp), (rc, log, ob) in zip(jobs, outs):
+        res.case(["cli-sign", n, sp], nontrivial=True)
+        res.count("cli:sign")
+        if rc != 0 or ob is None:
+            res.spec_failures.append({"cli": "sign single-level", "key_id_argument": sp, "what": f"the command line refused --key-id {sp} (exit {rc})", "log": log[-300:]})
+            continue
+        sp_ = drv.call({"op": "spec.C04", "input": b.hex(), "output": ob.hex(), "cose_alg": signing.COSE["eddsa"], "key_id": n})
+        if "ok" not in sp_ or not sp_["ok"]:
+            res.spec_failures.append({"cli": "sign single-level", "key_id_argument": sp, "denotes": n, "output": ob.hex()[:400],
+                                      "what": f"--key-id {sp} did not produce <input + one block naming key {n}>"})
+            continue
+        v = sp_["ok"]
+        if not signing.verify("key_ed25519", "eddsa", bytes.fromhex(v["message"]), bytes.fromhex(v["signature"])):
+            res.spec_failures.append({"cli": "sign single-level", "key_id_argument": sp, "what": "signature written through the command line does not verify"})
+
+
 def run(tier: str, seed: int) -> int:
     common.ensure_repo_on_path()
     res = Result(PROP, tier, seed)
@@ -140,6 +179,7 @@ def run(tier: str, seed: int) -> int:
             res.sample({"seed": job[0], "index": job[1], "alg": job[2], "key_id": job[3], "signature_bytes": o.get("siglen")})
     drv = common.Driver()
     rs_cases(drv, res)
+    cli_cases(res, drv, tier)
     drv.close()
     return finish(res, st, RULE, NOTE)
 
